@@ -330,8 +330,9 @@ func Run(r *core.Run) {
 	if r.Tier == "thorough" {
 		maxLen = 4
 	}
-	ecBase := scen.EcKey("small", 3, 1, r.Seed)
-	edBase := scen.EdKey("small", 3, 1, r.Seed)
+	// ids 255, 256, 257: minimal byte encodings of different lengths (and 254 for a 4th party)
+	ecBase := scen.EcKey("byte-boundary", 3, 1, r.Seed)
+	edBase := scen.EdKey("byte-boundary", 3, 1, r.Seed)
 	msg := new(big.Int).SetBytes(core.Bytes("c20-msg", 32))
 	msg.Mod(msg, ref.Secp256k1.N)
 	for _, curve := range []string{"ecdsa", "eddsa"} {
